@@ -7,7 +7,7 @@ from typing import Any, Callable, Dict, List, Optional, Set, Tuple
 from ..core import AnalysisError, Report
 from ..excflow import (GuardFacts, Site, _const_like, _in_annotation, collect_sites, dominating_guards, handler_converts, lexical_handler,
                        make_hierarchy)
-from ..pyfacts import (Repo, cc, cn, read_through_locals, resolve_names, normalize_counting_whiles, ancestors, calls, dotted, enclosing_handlers, handler_types, norm, parent, raise_guards,
+from ..pyfacts import (param_names, Repo, cc, cn, read_through_locals, resolve_names, normalize_counting_whiles, ancestors, calls, dotted, enclosing_handlers, handler_types, norm, parent, raise_guards,
                        raised_class, walk_no_nested)
 
 ASM = 'flipjump/assembler/assembler.py'
@@ -119,7 +119,6 @@ ALLOW: Dict[str, str] = {
     'FJLexer.NUMBER:int(n, 16)': 'token text matched hex_num',
     'FJLexer.NUMBER:int(n, 2)': 'token text matched bin_num',
     # (int(<decimal text>) is NOT excused by the token regex alone: python refuses more than 4300 digits - finding F16)
-    'decimal_to_int:int(digits[i:i + 512])': 'at most 512 digits of the dec_num token text: below the smallest conversion limit python allows (640)',
     'FJLexer.NUMBER:int(t.value)': 'a one-character NUMBER token is a decimal digit',
     'save_debugging_labels:lzma.compress(...)': 'compression of in-memory bytes with the fixed, valid filter chain',
     '_pow:int(base ** exp)': 'int() of an int',
@@ -229,9 +228,11 @@ def discharge(repo: Repo, rel: str, q: str, fn: ast.FunctionDef, s: Site, sub: C
                 return f'CONST: shift amount {norm(right)}'
             if isinstance(right, ast.Name) and _is_range_index(node, right.id):
                 return 'CONST: shift by a range() index'
-            if isinstance(right, ast.BinOp) and isinstance(right.left, ast.Name) and _is_range_index(node, right.left.id) \
-                    and isinstance(right.right, ast.Constant):
-                return 'CONST: shift by a scaled enumerate() index'
+            if isinstance(right, ast.BinOp) and isinstance(right.op, ast.Mult):
+                for idx_, k_ in ((right.left, right.right), (right.right, right.left)):
+                    if isinstance(idx_, ast.Name) and _is_range_index(node, idx_.id) and isinstance(k_, ast.Constant) \
+                            and isinstance(k_.value, int) and k_.value >= 0:
+                        return 'CONST: shift by a scaled loop index (non-negative, bounded by the length of the sequence)'
             return None
         if isinstance(op, ast.Pow):
             if isinstance(node.left, ast.Constant) and isinstance(right, ast.Call) and dotted(right.func) == 'len':      # type: ignore[attr-defined]
@@ -243,6 +244,20 @@ def discharge(repo: Repo, rel: str, q: str, fn: ast.FunctionDef, s: Site, sub: C
         d = dotted(node.func)            # type: ignore[attr-defined]
         if s.classes == ('OSError',):
             return 'ASSUMPTION: OSError (unwritable/unreadable path) is environmental, outside "for every source text"'
+        if d == 'int' and len(node.args) == 1 and q == 'decimal_to_int':      # type: ignore[attr-defined]
+            # a chunk of the decimal token: `S[a : a + K]` with a literal K no larger than 640 (the smallest conversion limit python
+            # can be configured with); the text is the dec_num token (only digits) - C12.LITERALS validates this decoder
+            a0 = resolve_names(fn, node.args[0])          # type: ignore[attr-defined]
+            if isinstance(a0, ast.Subscript) and isinstance(a0.slice, ast.Slice) and a0.slice.lower is not None and a0.slice.upper is not None \
+                    and a0.slice.step is None and isinstance(a0.value, ast.Name) and a0.value.id in param_names(fn):
+                from ..linexpr import Env as _Env, py_ir as _py_ir, to_lin as _to_lin
+                try:
+                    dlt = {k_: v_ for k_, v_ in __import__('fjverif.linexpr', fromlist=['lin_add']).lin_add(
+                        _to_lin(_py_ir(a0.slice.upper), _Env({})), _to_lin(_py_ir(a0.slice.lower), _Env({})), -1).items() if v_ != 0}
+                except Exception:      # noqa: BLE001
+                    dlt = {'?': 1}
+                if set(dlt) <= {''} and 0 < dlt.get('', 0) <= 640:
+                    return f'BOUNDED: a chunk of at most {dlt.get("", 0)} digits of the decimal token (below the smallest conversion limit, 640)'
         if d == 'int' and node.args and (norm(node.args[0]).startswith('self.') or isinstance(node.args[0], ast.Name)):      # type: ignore[attr-defined]
             a0 = node.args[0]            # type: ignore[attr-defined]
             if norm(a0) in ('self.repeat_times', 'evaluated'):
@@ -264,18 +279,21 @@ def discharge(repo: Repo, rel: str, q: str, fn: ast.FunctionDef, s: Site, sub: C
 
 
 def _is_range_index(node: ast.AST, name: str) -> bool:
+    """name is the counter of an enclosing loop / comprehension: the target of `range(..)`, or the FIRST target of `enumerate(..)`"""
+    def counts(target: ast.AST, it: ast.AST) -> bool:
+        if not isinstance(it, ast.Call):
+            return False
+        d = dotted(it.func)
+        if d == 'range':
+            return isinstance(target, ast.Name) and target.id == name
+        if d == 'enumerate':
+            return isinstance(target, ast.Tuple) and bool(target.elts) and isinstance(target.elts[0], ast.Name) and target.elts[0].id == name
+        return False
     for a in ancestors(node):
-        gens = []
-        if isinstance(a, (ast.ListComp, ast.GeneratorExp, ast.SetComp)):
-            gens = a.generators
-        for g in gens:
-            tn = {n.id for n in ast.walk(g.target) if isinstance(n, ast.Name)}
-            if name in tn and isinstance(g.iter, ast.Call) and dotted(g.iter.func) in ('range', 'enumerate'):
-                return True
-        if isinstance(a, ast.For):
-            tn = {n.id for n in ast.walk(a.target) if isinstance(n, ast.Name)}
-            if name in tn and isinstance(a.iter, ast.Call) and dotted(a.iter.func) in ('range', 'enumerate'):
-                return True
+        if isinstance(a, (ast.ListComp, ast.GeneratorExp, ast.SetComp)) and any(counts(g.target, g.iter) for g in a.generators):
+            return True
+        if isinstance(a, ast.For) and counts(a.target, a.iter):
+            return True
     return False
 
 
@@ -477,6 +495,12 @@ def rule_raises(rep: Report, repo: Repo, clo: List[Tuple[str, str, ast.FunctionD
                 rep.ok('C14.RAISES', f'{q}:re-raise', 're-raises the caught exception', site)
                 continue
             c = raised_class(n)
+            # `raise _builder(..)`: a module-level function whose every return constructs one exception class raises that class
+            if c and repo.has_func(rel, c):
+                rv = [r.value for r in walk_no_nested(repo.func(rel, c)) if isinstance(r, ast.Return) and r.value is not None]
+                built = {dotted(v.func).split('.')[-1] for v in rv if isinstance(v, ast.Call)}
+                if rv and len(built) == 1 and all(isinstance(v, ast.Call) for v in rv):
+                    c = next(iter(built))
             ok = sub(c, 'FlipJumpException') and c != 'FlipJumpException'
             if c in ('KeyboardInterrupt',):
                 ok = True
@@ -529,12 +553,27 @@ def rule_progress(rep: Report, repo: Repo, clo: List[Tuple[str, str, ast.Functio
                 ok = _all_paths(n.body, lambda s: isinstance(s, ast.Return) or any(
                     isinstance(c, ast.Call) and norm(c.func) == 'flip_addresses.pop' for c in ast.walk(s)))
                 why = 'each iteration pops an element or returns'
-            elif q == 'FJLexer.STRING' and test == 'i < len(s)':
-                ok = any(isinstance(s, ast.AugAssign) and norm(s.target) == 'i' and norm(s.value) == 'length' for s in n.body)
+            elif q == 'FJLexer.STRING' and isinstance(n.test, ast.Compare) and len(n.test.ops) == 1:
+                # `pos < len(s)` (either way round): each iteration adds the length of the character just decoded, and every
+                # length the decoder returns is a positive literal
+                a_, b_, op_ = n.test.left, n.test.comparators[0], n.test.ops[0]
+                if isinstance(op_, ast.Gt):
+                    a_, b_ = b_, a_
+                cnt_ok = isinstance(op_, (ast.Lt, ast.Gt)) and isinstance(a_, ast.Name) and isinstance(b_, ast.Call) and dotted(b_.func) == 'len'
+                steps_ = [s.value for s in n.body if isinstance(s, ast.AugAssign) and isinstance(s.op, ast.Add) and cnt_ok and norm(s.target) == a_.id]   # type: ignore[union-attr]
+                from_decoder = False
+                if len(steps_) == 1 and isinstance(steps_[0], ast.Name):
+                    for s in n.body:
+                        if isinstance(s, ast.Assign) and isinstance(s.targets[0], ast.Tuple) and len(s.targets[0].elts) == 2 \
+                                and norm(s.targets[0].elts[1]) == steps_[0].id and isinstance(s.value, ast.Call) \
+                                and dotted(s.value.func) == 'get_char_value_and_length':
+                            from_decoder = True
                 g = repo.func(PARSER, 'get_char_value_and_length')
-                lens = [norm(r.value.elts[1]) for r in ast.walk(g) if isinstance(r, ast.Return) and isinstance(r.value, ast.Tuple)]
-                ok = ok and all(x in ('1', '2', '4') for x in lens) and len(lens) == 3
-                why = f'i += length with lengths {lens}'
+                lens = [r.value.elts[1] for r in ast.walk(g) if isinstance(r, ast.Return) and isinstance(r.value, ast.Tuple) and len(r.value.elts) == 2]
+                rets = [r for r in ast.walk(g) if isinstance(r, ast.Return)]
+                pos_lens = bool(lens) and len(lens) == len(rets) and all(isinstance(x, ast.Constant) and isinstance(x.value, int) and x.value > 0 for x in lens)
+                ok = cnt_ok and from_decoder and pos_lens
+                why = f'{norm(a_)} += decoded length; lengths {[norm(x) for x in lens]}'
             rep.check(ok, 'C14.PROGRESS', f'{q}:while {test}', why, site)
     err = repo.func(PARSER, 'FJLexer.error')
     rep.check(any(isinstance(s, ast.AugAssign) and norm(s.target) == 'self.index' and norm(s.value) == '1' for s in err.body), 'C14.PROGRESS',
@@ -705,9 +744,29 @@ def rule_int_format(rep: Report, repo: Repo, clo: List[Tuple[str, str, ast.Funct
     # the helper itself falls back instead of raising
     if repo.has_func(EXPR, 'int_to_str'):
         h = repo.func(EXPR, 'int_to_str')
+        # every path: the decimal text when str() works, a hex()/bin()/oct() text when it raises ValueError - whether each path
+        # returns at once or binds one result variable returned at the end (forward substitution over the function)
+        from ..pysubst import block_outcomes
         tr = [t for t in ast.walk(h) if isinstance(t, ast.Try)]
-        ok = bool(tr) and any('ValueError' in handler_types(hd) and any(isinstance(r, ast.Return) and isinstance(r.value, ast.Call)
-                              and dotted(r.value.func) in ('hex', 'bin', 'oct') for r in ast.walk(hd)) for hd in tr[0].handlers)
+        def value_of(stmts: List[ast.stmt], tail: List[ast.stmt]) -> Optional[str]:
+            outs_ = block_outcomes(list(stmts) + list(tail), label='int_to_str')
+            vals_ = set()
+            for o_ in outs_:
+                if o_.result[0] != 'return' or o_.result[1] is None:
+                    return None
+                v_ = o_.result[1]
+                for e_ in o_.effects:
+                    if ' := ' in e_ and e_.split(' := ', 1)[0] == v_:
+                        v_ = e_.split(' := ', 1)[1]
+                vals_.add(v_)
+            return next(iter(vals_)) if len(vals_) == 1 else None
+        ok = False
+        if len(tr) == 1 and tr[0] in h.body and not tr[0].orelse and not tr[0].finalbody:
+            tail = h.body[h.body.index(tr[0]) + 1:]
+            p0 = [a.arg for a in h.args.args][0]
+            fast = value_of(tr[0].body, tail)
+            slow = [value_of(hd.body, tail) for hd in tr[0].handlers if 'ValueError' in handler_types(hd)]
+            ok = fast == f'str({p0})' and len(slow) == 1 and slow[0] in (f'hex({p0})', f'bin({p0})', f'oct({p0})')
         rep.check(ok, 'C14.INT-FORMAT', 'int_to_str:fallback', 'str() with a ValueError fallback to hex()', f'{EXPR}:{h.lineno}')
     sv = repo.func(EXPR, 'Expr.__str__')
     ints = [norm(r.value) for i in ast.walk(sv) if isinstance(i, ast.If) and 'isinstance(self.value, int)' in norm(i.test)
